@@ -366,6 +366,13 @@ Theorem C53_pack_visit_total :
 Proof. split; [exact C53Visit.visit_stable|exact C53Visit.resolve_visit_stable]. Qed.
 Print Assumptions C53_pack_visit_total.
 
+(* ---- revfile.Decode ---- *)
+From GoGit Require Proofs.C53RevFile.
+Theorem C53_revfile_alloc : forall Hsz file count pack es, Idx.rev_decode Hsz file count pack = Idx.Ok es ->
+  N.of_nat (List.length es) = count /\ (4 * count + 52 <= PackBytes.blen file)%N.
+Proof. exact C53RevFile.rev_decode_alloc. Qed.
+Print Assumptions C53_revfile_alloc.
+
 (* ---- reflog ---- *)
 Theorem C53_reflog_alloc : forall file l, Reflog.decode file = Some l -> (List.length l <= List.length file)%nat.
 Proof. exact C53Reflog.decode_alloc. Qed.
